@@ -30,15 +30,6 @@ Definition out_matches_spec (out : sarr) (s : res (dense Z)) : bool :=
   | Raise _ => match out with SExc ValueError | SExc IndexError => true | _ => false end
   end.
 
-Definition model_matches_spec (r : res (rres Z)) (s : res (dense Z)) : bool :=
-  match r, s with
-  | Ok (RScalar v), Ok d => zl_eqb (d_shape d) [] && zl_eqb (d_flat d) [v]
-  | Ok (RArr c), Ok d => zl_eqb (d_shape d) (c_shape c) && zl_eqb (d_flat d) (d_flat (todense c))
-                         && canonicalb c && prunedb Z.eqb c
-  | Raise ValueError, _ => true
-  | _, _ => false
-  end.
-
 Definition admissible_z (m f : Z) : bool :=
   admissible Z Z.eqb (op_z m) (ufunc_cast m) (sup_z m) f.
 
@@ -59,7 +50,6 @@ Definition clause_of (m : Z) (x : coo Z) (isg : bool) (ax : axis_arg) : Z :=
    2 in the domain: implementation <> Spec                        (a failing input)
    11/12 outside the domain (named clause): implementation <> Spec (a failing input of that class)
    6 in the domain: result not in canonical form
-   7 the model disagrees with the Spec inside the domain          (contradicts reduce_den: harness/model bug)
    8 inadmissible reduction: the implementation did not raise ValueError
    9 malformed input literal
    10 the Spec disagrees with NumPy on the dense input            (Spec/NpReduce.v wrong) *)
@@ -80,7 +70,9 @@ Definition judge_reduce (c : rcase) : Z :=
                    | _ => reduce_coo_z m ax keepdims x
                    end in
       if out_matches_model out model then
-        if model_matches_spec model spec then (if sarr_wfb out && sarr_prunedb out then 0 else 6) else 7
+        (* the theorem says model = Spec here; if a changed source breaks that, the input is a failing one *)
+        if out_matches_spec out spec then (if sarr_wfb out && sarr_prunedb out then 0 else 6)
+        else 2
       else if out_matches_spec out spec then 1 else 2
     else if out_matches_spec out spec then 0 else cl
   end.
